@@ -206,3 +206,9 @@ Section Ops.
 End Ops.
 
 Arguments upd {A} l i x.
+
+(* What collada/triangleset.py uses today for the per-vertex accumulation in generateNormals
+   (both classes) and generateTexTangentsAndBinormals: `numpy.add.at(norms, idx, n)`.
+   (Before the repair it was `norms[idx] += n`, i.e. [fancy_iadd]; see C18_fancy_iadd_refuted.) *)
+Definition code_accumulate (o : ops) : list (vec o) -> list nat -> list (vec o) -> list (vec o) :=
+  add_at o.
